@@ -43,6 +43,10 @@ func init() {
 		Families: func(c *mon.Config) []mon.Family {
 			return []mon.Family{
 				{Name: "cold-start", N: 1, Serial: true, Run: func(w *mon.W, _ int) {
+					if !coldFirst(w, coldPick(coldSigbitsCalls(), "FirstDiffBits", "New+CountPrefixes")) {
+						return
+					}
+					defer coldLast(w, coldPick(coldSigbitsCalls(), "FirstDiffBits", "New+CountPrefixes"))
 					for _, l := range [][]string{{""}, {"", "\x00"}, {"\xff", "\xff\xff"}, {"", ""}, {"a"}} {
 						if !c16CheckList(w, l) {
 							return
